@@ -74,27 +74,54 @@ def run(ck, options=None, variant='', underscore=False, tag=''):
     for cls, (s, rc, node) in bad.items():
         ra.instance(site, ok=False, wclass=cls, witness=scanex.show(s), what=f'is_ascii_domain {"accepts" if rc == 0 else "rejects (" + errname(tu, rc) + ")"} {scanex.show(s)!r} (return at {where(node)}); the statement says the opposite')
     # ---- O4.1b length table
-    rb = ck.rule('O4.1b' + tag, 'for n >= 4: rejected iff n minus root dot > 253; the root dot (exactly one) is stripped iff the last byte is "."', 10)
+    rb = ck.rule('O4.1b' + tag, 'for n >= 4, per length cell x class of the last byte: the prologue rejects only cells without any valid name, hands every other cell to the scan, with exactly one root dot stripped iff the last byte is "." and rejected iff n minus root dot > 253', 10)
     reps_n = {4, 5, 64, 252, 253, 254, 255, 256, 257, 1000, 70000}
     done = set()
-    other = [r for r in reps if r != 0x2e][0]
+    spec = DS.labels_spec(underscore)
+    reach = {0: {spec[0]}}                       # label-sequence DFA states reachable by strings of length m (dead ones dropped)
+    def reachable(m):
+        k = max(reach)
+        while k < m:
+            nxt = set()
+            for st in reach[k]:
+                for r in reps:
+                    t = spec[1](st, r)
+                    if not spec[3](t): nxt.add(t)
+            k += 1; reach[k] = nxt
+        return reach[m]
+    def some_valid(m, last):
+        """is there a string of length m >= 1 with last byte class `last` that the label-sequence DFA accepts?"""
+        if m < 1 or m > DS.MAX_NAME + 1: return m <= DS.MAX_NAME + 1 and False
+        return any(spec[2](spec[1](st, last)) for st in reachable(m - 1))
+    def cell_has_valid(n, c):
+        """a valid host name of length n whose last byte is in class c exists (root dot and 253 rule included)"""
+        if c == 0x2e:
+            return n >= 2 and n - 1 <= DS.MAX_NAME and any(spec[2](st) for st in reachable(n - 1))
+        return n <= DS.MAX_NAME and some_valid(n, c)
     while True:
         todo = sorted(reps_n - done)
         if not todo: break
         for n in todo:
             done.add(n)
-            for lastdot in (False, True):
+            for c in reps:
+                lastdot = c == 0x2e
                 try:
-                    r = pro.run(n, {n - 1: 0x2e if lastdot else other})
+                    r = pro.run(n, {n - 1: c})
                 except scanex.Unsupported as e:
                     raise AnalysisBroken(f'is_ascii_domain prologue outside the supported subset: {e}')
                 want = DS.phase1_spec(n, lastdot)
-                if r[0] == 'ret': got = ('reject',) if r[1] != 0 else ('accept',)
-                else: got = ('scan', r[1] == -1) if r[1] in (0, -1) else ('scan', r[1])
-                ok = got == want
-                rb.instance(f'{site}:n={n},lastdot={int(lastdot)}' if not ok else site, ok=ok, wclass=f'length-cell:{"reject" if got[0] == "reject" else got}',
-                            what=f'length {n}, last byte {"is" if lastdot else "is not"} ".": code does {got}, statement requires {want}' + (f' (return at {where(r[2])})' if r[0] == 'ret' else ''),
-                            detail={'n': n, 'lastdot': lastdot, 'code': got, 'statement': want})
+                ok = True; why = ''
+                if r[0] == 'ret':
+                    got = ('reject',) if r[1] != 0 else ('accept',)
+                    if r[1] == 0: ok = False; why = 'accepted without scanning'
+                    elif want[0] != 'reject' and cell_has_valid(n, c): ok = False; why = f'rejected ({errname(tu, r[1])}) before scanning, although valid names of this shape exist'
+                else:
+                    got = ('scan', r[1] == -1) if r[1] in (0, -1) else ('scan', r[1])
+                    if want[0] == 'reject': ok = False; why = 'handed to the scan, which has no total-length rule'
+                    elif got != want: ok = False; why = 'wrong number of bytes stripped before the scan'
+                rb.instance(f'{site}:n={n},last={scanex.show([c])}' if not ok else site, ok=ok, wclass=f'length-cell:{"reject" if got[0] == "reject" else got}',
+                            what=f'length {n}, last byte {scanex.show([c])!r}: code does {got}, statement requires {want}: {why}' + (f' (return at {where(r[2])})' if r[0] == 'ret' else ''),
+                            detail={'n': n, 'last': c, 'code': got, 'statement': want})
         for c in list(pro.compared):
             for d in (-1, 0, 1):
                 if c + d >= 4: reps_n.add(c + d)
@@ -111,6 +138,12 @@ def run(ck, options=None, variant='', underscore=False, tag=''):
             if (rc == 0) == (src == 0): return
             w = [s for s in witness if s != END]
             if term == 0x00 and w and w[-1] == 0x2e: return       # such a string is never scanned unstripped (n >= 2) / covered by O4.1a (n == 1)
+            # the scan is only one half of the function: a witness counts if the prologue really hands this string to the
+            # scan with this range (otherwise the prologue's own verdict applies, which O4.1a / O4.1b judge)
+            full = list(w) + ([0x2e] if term == 0x2e else [])
+            try: pr = pro.run(len(full), full)
+            except scanex.Unsupported: pr = None
+            if pr is not None and (pr[0] == 'ret' or pr[1] != (-1 if term == 0x2e else 0)): return
             cls = 'accepts-invalid' if rc == 0 else 'rejects-valid:' + errname(tu, rc)
             cur = found.get(cls)
             if cur is None or len(w) < len(cur[0]): found[cls] = (w, rc, node)
@@ -140,7 +173,7 @@ def run(ck, options=None, variant='', underscore=False, tag=''):
             if not conv:
                 if nonneg: why.append(f'returns {ret} without converting')
                 continue
-            out = conv_output(conv[0])
+            out = conv_output(conv[-1])          # the conversion whose output is used (a retry makes a second call)
             if asc:
                 a = asc[0][2]
                 if a[0] != out or a[1] != f'({out} + strlen#1)' or not p.calls('strlen') or p.calls('strlen')[0][2] != (out,):
